@@ -18,28 +18,46 @@ import sys
 
 sys.path.insert(0, os.path.dirname(os.path.dirname(os.path.abspath(__file__))))
 from harness import gen, c01_help as H  # noqa: E402
+from translate import kernels, c01_hooks  # noqa: E402
 
 CLAIM = {
-    "text": "Unbounded theorems (any number of nodes and branches, parallel branches, self loops, any node typing) over "
-            "an executable generic-ring Coq model of the hydraulic build_system_matrix and of the Newton update of "
-            "solve_hydraulics: the row of every non-slack node is exactly the nodal balance; with ANY solution x of the "
-            "assembled system the imbalance after m - alpha x is (1 - alpha) times the old one (alpha = 1: exact balance "
-            "after one step from any iterate); the new slack mass is the imbalance of its node; the slack masses sum to "
-            "minus the total load (induction over branches); ConstFlow load aggregation (sorted grouping, label -> position "
-            "lookup, scaling, sign, in_service) adds to LOAD_i exactly the sum over the rows attached to node i, for any "
-            "labels / row order. "
-            "The model is tied to /repo by exact integer / dyadic correspondences evaluated inside Coq on every run.",
-    "note": "All theorems are closed under the global context (no axioms). Assumed and checked by correspondence, not "
-            "proved from source: the kernel columns (df_dm_nodes = 1, load_vec_nodes_* = MDOTINIT), JAC_DERIV_MSL = -1. "
-            "Partial: HeatConsumer QE modes overwrite MDOTINIT inside the hooks (balance then holds from the next "
-            "iteration on); result extraction signs are monitored, not proved. "
-            "Oracles: spsolve (theorems hold for any solution), IEEE rounding (monitors observe round-off only). "
-            "Circulation-pump flow junctions balance within tol_m, not round-off (slack mass reset, unreported).",
-    "technique": "Coq proof over hand-written generic-ring model + exact model/implementation correspondence inside Coq "
-                 "+ exact rational oracle + result monitors",
+    "text": "Unbounded theorems (any number of nodes / branches / table rows, parallel branches, self loops, any labels and "
+            "row order) over an executable generic-ring Coq model of the hydraulic build_system_matrix, the Newton update of "
+            "solve_hydraulics, ConstFlow.create_pit_node_entries, ExtGrid.extract_results and ConstFlow.extract_results: "
+            "node rows are exactly the nodal balance; with ANY solution x the imbalance after m - alpha x is (1 - alpha) "
+            "times the old one (alpha = 1: exact balance after one step from any iterate); the new slack mass is its "
+            "node's imbalance; slack masses sum to minus the total load; LOAD_i = sum of the rows attached to node i "
+            "(scaling, sign, in_service); the reported ext-grid flows on a node add up to its slack mass (even split over "
+            "the in-service p/pt grids only); const-flow rows report mdot*scaling iff in service and supplied, and LOAD_i "
+            "is sign * the sum of those reported values; reported mdot_from / mdot_to of a multi-section element are +m of "
+            "its first / -m of its last section (over C06's placement model). Generated facts (T-tie, re-proved from the "
+            "source on every run): all four hydraulic kernels write df_dm_nodes = 1 and load_vec_nodes_* = MDOTINIT, "
+            "get_basic_branch_results writes mf_from = MDOTINIT, mf_to = -MDOTINIT, and no component hook writes the node "
+            "columns (MDOTINIT inside hooks: HeatConsumer only; slack-mass reset: CirculationPump hook only). Models are "
+            "tied to /repo by exact integer / dyadic correspondences evaluated inside Coq.",
+    "note": "Generic-ring theorems are closed under the global context; the kernel facts are over R and list "
+            "ClassicalDedekindReals.sig_forall_dec (+ functional_extensionality_dep via Reals). Hypotheses: kernel_cols "
+            "(T-tie + read at the real build call), JAC_DERIV_MSL = -1 (checked at the real call), branch ends in range "
+            "(C04), lookup injective (C06), div inverts the multiplication by the ext-grid count (field, count >= 1). "
+            "Partial: HeatConsumer QE modes overwrite MDOTINIT inside hooks (balance from the next iteration on; named by "
+            "hooks_preserve_node_columns); placement for branches without internals and the junction-level sum over "
+            "tables are monitored, not proved. Oracles: spsolve (theorems hold for any solution), IEEE rounding. "
+            "Circulation-pump flow junctions balance within ~tol_m (slack mass reset, unreported).",
+    "technique": "Coq proof over hand-written generic-ring model + generated kernel / hook facts + exact "
+                 "model/implementation correspondence inside Coq + exact rational oracle + result monitors",
     "design": "DESIGN.md 4/C01 + design_notes/C01.md",
 }
-GEN = []
+GEN = kernels.gen_entries(["KHydIncompNp", "KHydIncompNb", "KHydCompNp", "KHydCompNb", "KBasicRes"]) + \
+    [("C01Hooks", lambda: c01_hooks.generate())]
+
+
+def gen_tties(ctx):
+    """T-tie: regenerate the kernel files and the hook-column table from the tree under test"""
+    for name, fn in GEN:
+        try:
+            ctx.gen(name, fn())
+        except Exception as e:  # noqa: BLE001  (fail closed: anything the translators do not understand)
+            ctx.broken("translator", name, repr(e)[:600])
 
 
 def budget(ctx):
@@ -284,7 +302,9 @@ def run(ctx):
                          "(structure of the active pit, numba, update option, first/second call); non-trivial = parallel "
                          "branches or > 1 slack node or a PC branch. pipeflow case = canonical spec; non-trivial = > 3 junctions")
     b = budget(ctx)
+    gen_tties(ctx)
     proved = ctx.prove("C01")
+    proved_t = ctx.prove("C01", props="PropsT")      # generated facts: kernel node columns, hook column writers
     specs = make_specs(ctx, b["nets"])
     # ---------------------------------------------------------------- H-tie 1: build_system_matrix
     recs, metas, fails = matrix_records(ctx, specs, b)
@@ -349,6 +369,36 @@ def run(ctx):
     for gi in bad3[:3]:
         describe_bad(ctx, "ConstFlow.create_pit_node_entries", specs[lmetas[gi]["spec_i"]][0], lmetas[gi], "LOAD column differs")
         suspects.append(specs[lmetas[gi]["spec_i"]])
+    # ---------------------------------------------------------------- H-tie 4: result extraction of node elements
+    erecs, emetas, rrecs, rmetas = [], [], [], []
+    for i, (spec, prof) in enumerate(specs[:b["cf"]]):
+        try:
+            txt, meta = H.extgrid_result_case(ctx.rng, gen.build(spec))
+            meta["spec_i"] = i
+            erecs.append(txt)
+            emetas.append(meta)
+            ctx.case({"kind": "extgrid_results", **{k: v for k, v in meta.items() if k != "spec_i"}},
+                     meta["max_active_on_one_junction"] > 1 or meta["inactive_rows"] > 0, key="e:%d" % i)
+            for txt, meta in H.constflow_result_cases(ctx.rng, gen.build(spec)):
+                meta["spec_i"] = i
+                rrecs.append(txt)
+                rmetas.append(meta)
+                ctx.case({"kind": "constflow_results", **{k: v for k, v in meta.items() if k != "spec_i"}},
+                         meta["unsupplied_rows"] > 0 or meta["oos"] > 0, key="r:%d:%s" % (i, meta["table"]))
+        except ValueError as e:
+            ctx.broken("correspondence", "result extraction exactness", str(e))
+        except Exception as e:  # noqa: BLE001
+            ctx.count("skipped_extract:" + type(e).__name__)
+    n4, mis4, bad4, ok4 = H.run_corr(ctx, "e", "C01.Model.extgrid_results == ExtGrid.extract_results (res_ext_grid.mdot_kg_per_s "
+                                               "from MDOTSLACKINIT, even split over in-service p/pt grids, Q)", erecs, chunk=120)
+    for gi in bad4[:3]:
+        describe_bad(ctx, "ExtGrid.extract_results", specs[emetas[gi]["spec_i"]][0], emetas[gi], "res_ext_grid differs")
+        suspects.append(specs[emetas[gi]["spec_i"]])
+    n5, mis5, bad5, ok5 = H.run_corr(ctx, "r", "C01.Model.constflow_results == Sink/Source/MassStorage.extract_results "
+                                               "(mdot*scaling iff in service and junction supplied, else NaN; Z)", rrecs, chunk=150)
+    for gi in bad5[:3]:
+        describe_bad(ctx, "ConstFlow.extract_results", specs[rmetas[gi]["spec_i"]][0], rmetas[gi], "res table differs")
+        suspects.append(specs[rmetas[gi]["spec_i"]])
     # ---------------------------------------------------------------- search: exact oracle on the real matrix
     n_or = n_sing = 0
     for spec, prof in (suspects + specs)[:b["oracle"] + len(suspects)]:
